@@ -216,6 +216,22 @@ struct Shared {
   Gnomonic gn; AzimuthalEquidistant ae; CassiniSoldner cs;
   Intersect inter;
   PolygonArea poly, pline; PolygonAreaExact polye; PolygonAreaRhumb polyr;
+  // ---- the same classes built through their OTHER public constructors / factories / pre-barrier mutators
+  AuxLatitude auxab;                                   // AuxLatitude::axes(a, b)  (private pair constructor)
+  LambertConformalConic lcc3, lcc4; AlbersEqualArea alb3, alb4; PolarStereographic ps2;   // sin/cos constructors; SetScale
+  EllipticFunction ef4;                                // (k2, alpha2, kp2, alphap2)
+  NormalGravity ngJ2;                                  // from J2 (geometricp = false)
+  LocalCartesian lc2; CassiniSoldner cs2;              // default-earth constructors + Reset
+  Gnomonic gnx; AzimuthalEquidistant aex;              // on Geodesic(exact=true)
+  GeodesicLine glC, glI, glD, glxI; GeodesicLineExact gleC, gleI;   // line constructors; InverseLine / DirectLine (distance set)
+  SphericalHarmonic shb; SphericalHarmonic1 sh1b; SphericalHarmonic2 sh2b;   // (N, nmx, mmx) constructors
+  GravityModel gmt; GravityCircle gmct; MagneticModel mmt; MagneticCircle mmct;   // truncated (Nmax, Mmax); other earth; restricted caps
+  PolygonArea polyx; PolygonAreaRhumb polyrx;          // on Geodesic(exact=true) / Rhumb(exact)
+  // variant tables used by the registry (index = Op::p / 1000)
+  const AuxLatitude* auxv[2]; const PolarStereographic* psv[2]; const EllipticFunction* efv[2]; const NormalGravity* ngv[2];
+  const LocalCartesian* lcv[2]; const CassiniSoldner* csv[2]; const Gnomonic* gnv[2]; const AzimuthalEquidistant* aev[2];
+  const SphericalHarmonic* shv[2]; const SphericalHarmonic1* sh1v[2]; const SphericalHarmonic2* sh2v[2];
+  const GravityModel* gmv[2]; const GravityCircle* gmcv[2]; const MagneticModel* mmv[2]; const MagneticCircle* mmcv[2];
 
   static int csz(int N) { return (N + 1) * (N + 2) / 2; }
   static SphericalHarmonic::normalization nrm(int k) { return k ? SphericalHarmonic::SCHMIDT : SphericalHarmonic::FULL; }
@@ -247,8 +263,34 @@ struct Shared {
       geob(P.name, P.dir, false, true), geoc(P.name, P.dir, true, true),
       gn(g), ae(g), cs(P.lat0, P.lon0, g),
       inter(P.inter_exact ? gx : g),
-      poly(g, false), pline(g, true), polye(ge, false), polyr(rs, false)
+      poly(g, false), pline(g, true), polye(ge, false), polyr(rs, false),
+      auxab(AuxLatitude::axes(P.a, P.a * (1 - P.f))),
+      lcc3(P.a, P.f, Math::sind(P.stdlat1), Math::cosd(P.stdlat1), Math::sind(P.stdlat2), Math::cosd(P.stdlat2), P.k0), lcc4(lcc2),
+      alb3(P.a, P.f, Math::sind(P.stdlat1), Math::cosd(P.stdlat1), Math::sind(P.stdlat2), Math::cosd(P.stdlat2), P.k0), alb4(alb2),
+      ps2(P.a, P.f, P.k0),
+      ef4(P.k2, P.alpha2, 1 - P.k2, 1 - P.alpha2),
+      ngJ2(P.a, ng.MassConstant(), 7.292115e-5, ng.DynamicalFormFactor(), false),
+      lc2(P.ly[0], P.ly[1]), cs2(),
+      gnx(gx), aex(gx),
+      glC(g, P.ly[0], P.ly[1], P.ly[2], Geodesic::ALL), glI(g.InverseLine(P.lx[0], P.lx[1], P.ly[0], P.ly[1])),
+      glD(g.DirectLine(P.lx[0], P.lx[1], P.lx[2], P.a * 1.3)), glxI(gx.InverseLine(P.lx[0], P.lx[1], P.ly[0], P.ly[1])),
+      gleC(ge, P.ly[0], P.ly[1], P.ly[2], GeodesicExact::ALL), gleI(ge.InverseLine(P.lx[0], P.lx[1], P.ly[0], P.ly[1])),
+      shb(C, S, P.shN, P.shN - 1, (P.shN - 1) / 2, P.a, nrm(P.shnorm)),
+      sh1b(C, S, P.shN, P.shN, P.shN, C1, S1, P.shN1, P.shN1, P.shN1 / 2, P.a, nrm(P.shnorm)),
+      sh2b(C, S, P.shN, P.shN, P.shN / 2, C1, S1, P.shN1, std::min(P.shN1, P.shN), std::min(P.shN1, P.shN / 2),
+           C2, S2, P.shN2, std::min(P.shN2, P.shN), std::min(P.shN2, P.shN / 2), P.a, nrm(P.shnorm)),
+      gmt(P.name, P.dir, std::max(2, P.fs.gN - 2), std::max(0, std::min(P.fs.gM, P.fs.gN - 2) / 2)),
+      gmct(gmt.Circle(-P.gm_lat, P.gm_h * 0.5)),
+      mmt(P.name, P.dir, gc, std::max(1, P.fs.mN - 1), std::max(0, std::min(P.fs.mM, P.fs.mN - 1) / 2)),
+      mmct(mmt.Circle(2015 + (P.mm_t - 2014) / 3, P.mm_lat, P.mm_h)),
+      polyx(gx, false), polyrx(rx, false),
+      auxv{&aux, &auxab}, psv{&ps, &ps2}, efv{&ef, &ef4}, ngv{&ng, &ngJ2}, lcv{&lc, &lc2}, csv{&cs, &cs2}, gnv{&gn, &gnx}, aev{&ae, &aex},
+      shv{&sh, &shb}, sh1v{&sh1, &sh1b}, sh2v{&sh2, &sh2b}, gmv{&gm, &gmt}, gmcv{&gmc, &gmct}, mmv{&mm, &mmt}, mmcv{&mmc, &mmct}
   {
+    // mutators that belong to construction (all before any thread exists)
+    lcc4.SetScale(P.stdlat1 * 0.5, 1.1); alb4.SetScale(P.stdlat1 * 0.5, 1.1); ps2.SetScale(P.stdlat >= 0 ? 71 : -71, 0.98);
+    lc2.Reset(P.lat0, P.lon0, P.h0); cs2.Reset(P.ly[0], P.ly[1]);
+    for (auto& q : P.poly) { polyx.AddPoint(q.first, q.second); polyrx.AddPoint(q.first, q.second); }
     for (auto& q : P.poly) { poly.AddPoint(q.first, q.second); pline.AddPoint(q.first, q.second);
                              polye.AddPoint(q.first, q.second); polyr.AddPoint(q.first, q.second); }
     // same exclusion for the helgrind pass (client requests; no-ops outside valgrind)
@@ -283,6 +325,18 @@ struct Op { std::string name, cls; double w; bool needs_shared; OpFn fn; int p; 
 inline std::vector<Op>& registry() { static std::vector<Op> R; return R; }
 inline void add(const std::string& name, const std::string& cls, double w, bool ns, OpFn fn, int p = 0) {
   registry().push_back(Op{name, cls, w, ns, fn, p}); }
+
+// object variant selected by Op::p / 1000 (0 = primary constructor, 1 = alternative constructor / factory)
+#define VAR(arr) (*S->arr[pv / 1000])
+// re-register every operation whose name starts with oldpre for variant v under newpre / newcls
+inline void add_variant(const std::string& oldpre, const std::string& newpre, const std::string& newcls, int v) {
+  size_t n = registry().size();
+  for (size_t k = 0; k < n; ++k) {
+    Op o = registry()[k];
+    if (o.p >= 1000 || !o.needs_shared || o.name.compare(0, oldpre.size(), oldpre) != 0) continue;
+    o.name = newpre + o.name.substr(oldpre.size()); o.cls = newcls; o.p += 1000 * v; registry().push_back(o);
+  }
+}
 
 // executes one registered operation; library exceptions are part of the result
 inline void exec(const Op& op, const Shared* S, uint64_t seed, Res& out) {
